@@ -6,6 +6,7 @@ import (
 	"fmt"
 	"math/big"
 	"sort"
+	"sync/atomic"
 	"time"
 
 	"github.com/Factom-Asset-Tokens/factom"
@@ -21,8 +22,8 @@ import (
 )
 
 func (d *Pegnetd) GetCurrentSync() uint32 {
-	// Should be thread safe since we only have 1 routine writing to it
-	return d.Sync.Synced
+	// Only the sync routine writes it, and only after the block is committed
+	return atomic.LoadUint32(&d.Sync.Synced)
 }
 
 // DBlockSync iterates through dblocks and syncs the various chains
@@ -117,12 +118,11 @@ OuterSyncLoop:
 				continue OuterSyncLoop
 			}
 
-			// Bump our sync, and march forward
-
-			d.Sync.Synced++
-			err = d.Pegnet.InsertSynced(tx, d.Sync)
+			// Bump our sync, and march forward. The in-memory height is what
+			// the api reports, so it only moves once the block is committed.
+			next := &pegnet.BlockSync{Synced: d.Sync.Synced + 1}
+			err = d.Pegnet.InsertSynced(tx, next)
 			if err != nil {
-				d.Sync.Synced--
 				hLog.WithError(err).Errorf("unable to update synced metadata")
 				err = tx.Rollback()
 				if err != nil {
@@ -134,13 +134,14 @@ OuterSyncLoop:
 
 			err = tx.Commit()
 			if err != nil {
-				d.Sync.Synced--
 				hLog.WithError(err).Errorf("unable to commit transaction")
 				err = tx.Rollback()
 				if err != nil {
 					// TODO evaluate if we can recover from this point or not
 					hLog.WithError(err).Fatal("unable to roll back transaction")
 				}
+			} else {
+				atomic.StoreUint32(&d.Sync.Synced, next.Synced)
 			}
 
 			elapsed := time.Since(start)
